@@ -278,13 +278,9 @@ class Resolver:
                     return node
                 val = select_path(d.value, d.path) if d.path else d.value
                 if val is None:
-                    # tuple unpacking of a non-literal: keep symbolic projection
-                    proj = ast.Subscript(
-                        value=outer.resolve(d.value, d.node, depth + 1),
-                        slice=ast.Constant(value="#".join(str(p) for p in d.path)),
-                        ctx=ast.Load(),
-                    )
-                    return ast.copy_location(ast.Call(func=ast.Name(id="__proj__", ctx=ast.Load()), args=[proj.value, ast.Constant(value=list(d.path)[0] if len(d.path) == 1 else str(d.path))], keywords=[]), node)
+                    # tuple unpacking of a non-literal (a call result): keep the name
+                    outer.stopped.append((node.id, "component of a call result"))
+                    return node
                 # loop-carried? the definition node can be reached from `at` and depends on itself
                 if _self_dependent(flow, d):
                     outer.stopped.append((node.id, "loop-carried"))
